@@ -178,7 +178,20 @@ def main():
   viol = []
   dist = collections.Counter()
   nontrivial = set()
+  import oracle_c19 as o19
   for mb, qt, stats, desc, info in cg.gen_cases(rng, n_models):
+    if info.get('n_subgraphs', 1) > 1 and rng.random() < 0.12 and not info.get('unmodelled'):
+      # the same model with a tensor name repeated in another subgraph: outside the
+      # input contract, ParamsGenerator must refuse it (the model's plan_checked does)
+      dup = o19.dup_names(mb, rng)
+      if dup is not None:
+        try:
+          q2 = quantizer.Quantizer(bytearray(dup))
+          q2.load_quantization_recipe(copy.deepcopy(qt.get_quantization_recipe()))
+          mb, qt = dup, q2
+          dist['repeated_name_across_subgraphs'] += 1
+        except Exception:  # pylint: disable=broad-except
+          pass
     m = og.read(mb)
     ctx = cg.Ctx()
     rid, sid, oid = cr.Intern(), cr.Intern(), cr.Intern()
